@@ -14,7 +14,8 @@
                                 floor(100*step/max) as percentage
        ThrottleOK               a frame caused by advance/set_progress that is not at the maximum comes no sooner
                                 than `mingap` after the previous frame caused by advance/set_progress
-       MaxDraws, FinishOK       reaching the maximum draws; after finish() the last frame shows max/max, 100 %
+       MaxDraws, FinishOK, FinishEnds   reaching the maximum draws; after finish() the last frame shows max/max, 100 %;
+                                finish() never takes progress back
        AnsiLine                 ANSI (also through a section): the screen is what was there before plus exactly the
                                 latest frame (nothing after clear()) - no residue of longer earlier frames
        PlainOwnLine             plain: no control codes; every frame stands on its own line (empty lines aside)
@@ -37,7 +38,7 @@ LOCAL INSTANCE SequencesExt
 CONSTANTS PercentExact, NewlineByWrites, MoveUpAfterFirst, FinishDrawsNoMax,
           ClearCountsRows                \* SectionOutput.clear(n) as in Sections.tla (TRUE = repaired)
 
-VARIABLES cfg,       \* [mode, bw, mingap, maxgap, freq, fmt, chars, w, pre, max0]; mode, gaps, freq, w, pre, max0 are fixed per
+VARIABLES cfg,       \* [mode, bw, mingap, maxgap, freq, fmt, chars, w, pre, secpre, max0]; mode, gaps, freq, w, pre, max0 are fixed per
                      \* behaviour; fmt / bw / chars follow set_format / set_bar_width / the character setters
                      \* chars = [bar, empty, prog]: bar = "" is the default ("=" with a maximum, else the empty-bar
                      \* character); prog is a sequence of 0 or 1 cells
@@ -85,8 +86,14 @@ FinishOK == (last.op = "finish" /\ ~Quiet /\ last.exc = "" /\ last.maxsteps > 0)
               /\ IsFrame(shown) /\ shown.cur = last.maxsteps
               /\ shown.hasmax => shown.max = last.maxsteps
               /\ shown.haspct => shown.pct = 100
+\* "ends at 100 %": finish() never takes progress back, and a bar that has advanced ends with step = maximum (a bar
+\* without maximum gets its step as maximum)
+FinishEnds == (last.op = "finish" /\ last.exc = "") =>
+                /\ last.progress >= last.pprog
+                /\ last.pprog > 0 => last.maxsteps = last.progress
 ShownLines == IF IsFrame(shown) THEN shown.lines ELSE <<>>
-AnsiLine == Overwrites => Screen(term) = Visible(FoldAll(cfg.pre \o ShownLines, cfg.w))
+\* cfg.secpre: lines the section already held when the bar was created (section mode) - they stay above the bar
+AnsiLine == Overwrites => Screen(term) = Visible(FoldAll(cfg.pre \o cfg.secpre \o ShownLines, cfg.w))
 \* blank rows are not counted: the statement asks that every frame stands on a line of its own, not that no empty
 \* line separates frames (the pinned code starts with a new line when the first frame is drawn at a step > 0)
 NonBlank(rows) == SelectSeq(rows, LAMBDA r : r # <<>>)
@@ -156,7 +163,9 @@ Overwrite(b, s, msgLines) ==
   LET ls  == [k \in 1..Len(msgLines) |-> LJust(msgLines[k], b.lastLen)]
       b2  == [b EXCEPT !.lastLen = MaxLen(ls), !.since = 0, !.writes = @ + 1]
   IN CASE cfg.mode = "section" ->
-            LET c == SecClearN(s, (Len(ls) \div cfg.w) + b.flc + 1)
+            \* only a frame written earlier is replaced (repaired: the code used to clear on the first write too and
+            \* took the last line the section already held)
+            LET c == IF b.writes = 0 THEN [ops |-> <<>>, s |-> s] ELSE SecClearN(s, (Len(ls) \div cfg.w) + b.flc + 1)
                 w == SecWrite(c.s, ls)
             IN [ops |-> c.ops \o w.ops, b |-> b2, s |-> w.s]
        [] cfg.mode = "plain" ->
@@ -234,8 +243,9 @@ Event(op, arg, dt, gap, r, b) ==
    progress |-> b.step, maxsteps |-> b.max, msg |-> b.msg, pprog |-> last.progress, pmax |-> last.maxsteps]
 
 InitWith(c) ==                                               \* c.max0: the maximum given to the constructor
-  /\ cfg = c /\ bar = NewBar(TMax(0, c.max0), TMax(c.mingap, c.maxgap)) /\ sec = [content |-> <<>>, lines |-> 0]
-  /\ term = ApplyOps(TermNew(c.w), LinesOps(c.pre))
+  /\ cfg = c /\ bar = NewBar(TMax(0, c.max0), TMax(c.mingap, c.maxgap))
+  /\ sec = [content |-> c.secpre, lines |-> SumRows(c.secpre)]
+  /\ term = ApplyOps(TermNew(c.w), LinesOps(c.pre \o c.secpre))
   /\ shown = NoFrame /\ sinceAdv = -1 /\ plog = <<>>
   /\ last = [op |-> "new", arg |-> c.max0, dt |-> 0, gap |-> -1, frames |-> <<>>, ops |-> <<>>, exc |-> "",
              progress |-> 0, maxsteps |-> TMax(0, c.max0), msg |-> <<"m">>, pprog |-> 0, pmax |-> TMax(0, c.max0)]
